@@ -272,7 +272,7 @@ func c08Scenario(p c08P, b Bounds) *Scenario {
 					q := findEv(x, 0, "quiet", "before-cause")
 					for i, m := range h.msgs[:len(p.Traffic)] {
 						for _, mem := range m.Members {
-							if mem.Kind != 'n' && mem.Kind != 'h' {
+							if mem.Kind != 'n' && mem.Kind != 'h' && mem.Kind != 'z' {
 								continue
 							}
 							in := findEv(x, 0, "in", fmt.Sprint(i))
@@ -322,7 +322,7 @@ func c08Scenario(p c08P, b Bounds) *Scenario {
 func c08Scenarios(tier string) []*Scenario {
 	var out []*Scenario
 	add := func(p c08P, b Bounds) { out = append(out, c08Scenario(p, b)) }
-	traffics := [][]string{{"c"}, {"n"}, {"g"}, {"h"}, {"y"}, {"m"}, {"[nc]"}, {"h", "n", "y"}, {"g", "c"}, {"h", "c"}}
+	traffics := [][]string{{"c"}, {"n"}, {"g"}, {"h"}, {"y"}, {"m"}, {"[nc]"}, {"h", "n", "y"}, {"g", "c"}, {"h", "c"}, {"z"}, {"h", "n", "z"}, {"h", "[zn]", "z"}}
 	if tier == "quick" {
 		for _, t := range traffics {
 			for _, unb := range []bool{true, false} {
